@@ -194,7 +194,7 @@ mut("C05", "id-not-truncated", "httpd", [("httpd/httpd.go",
 """, """	store.id = store.id[:min(len(store.id), 12)]
 """)])
 mut("C05", "nonatomic-storeid", "httpd", [("httpd/httpd.go",
- """atomic.AddUint64(&mux.storeID, 1)""", """func() uint64 { mux.storeID++; return mux.storeID }()""")])
+ """atomic.AddUint64(&mux.storeID, 1)""", """func() uint64 { mux.storeID++; return atomic.LoadUint64(&mux.storeID) }()""")])
 mut("C05", "names-assigned-before-method-known", "httpd", [("httpd/tree.go",
  """	if node = node.methodNodeOrNil(method); node != nil {
 		params.K = node.paramNameList
@@ -649,11 +649,13 @@ mut("C14", "decrement-before-handover", "tasklane", [(TL,
 """)])
 mut("C14", "recover-outside-loop", "tasklane", [(TL,
  """	defer tl.wg.Done()
+	defer verifPoint(tl.ctx, "worker.exit", index)
 
 	var task Task
 	for {
 		verifPoint(tl.ctx, "worker.loop", index)""",
  """	defer tl.wg.Done()
+	defer verifPoint(tl.ctx, "worker.exit", index)
 	defer func() {
 		if err := recover(); err != nil {
 			tl.lastPanic.Store(&err)
